@@ -43,6 +43,22 @@ CLAIMS = {
              'base-class plumbing, instantiated at the integer classes).'),
 }
 
+CLAIMS['C26'] = dict(
+    category='proof',
+    text='TaskPool.{add_to_pool, remove, _swap_out, get_task, _get_task_by_id, get_tasks} are proved against '
+         'their real bodies to preserve the pool view (point text, identity) -> proxy and the representation '
+         'invariant wf_pool: never two proxies under one key (the key of an entry is the identity/point of the '
+         'stored proxy), no empty cycle bucket after add/remove, and the cached list returned by get_tasks is a '
+         'duplicate-free enumeration of exactly the pool contents whenever active_tasks_changed is False '
+         '(every writer marks it stale). A census obligation (syntactic scan of the whole package) shows that '
+         'active_tasks, _active_tasks_list and active_tasks_changed are written only by those functions. '
+         'All pools, all task sets: quantified contracts, no bound.',
+    note=_PROOF_NOTE + 'Cycle points are dictionary keys through their text (equal standardised points have '
+         'equal text: C18 lemma; assumption A-STD-POINTS: pooled points are standardised). Collaborators called '
+         'from add_to_pool/remove (data store, DB manager, xtrigger manager, queue manager, '
+         'spawn_next_parentless) have assumed frame contracts justified by the census. The database sentence '
+         'of the property (task_pool table == pool after each iteration) is not covered: SQL is opaque.')
+
 NOT_APPLICABLE = {
     'C01': 'equality between the set of instances submitted over a whole run and the spawn-on-demand closure, for '
            'every schedule: a whole-history property; no postcondition of one call states it. Its per-call '
